@@ -30,3 +30,20 @@ package cmds
 //@   invariant [no_input_matched_yet] forall j int :: {target.Inputs[j]} 0 <= j && j <= rangeindex ==> !inStrs(args, pathJoin(config.Global.WorkspaceRoot, pathJoin(target.Label.Package, target.Inputs[j])))
 //@ loop #4
 //@   invariant [labels_so_far] len(matchingLabels) == rangeindex + 1 && (forall q int :: {matchingLabels[q]} 0 <= q && q <= rangeindex ==> matchingLabels[q] == matchingTargets[q].Label)
+
+// deps / rdeps: the node list handed to the filter is the direct or the transitive dependency (dependant) set of the
+// queried target, depending on --transitive, and what is printed is the filtered list. (DepsCmd.Run is cmds.init$5,
+// RDepsCmd.Run is cmds.init$11.)
+//@ func init$5(cmd, args) ()
+//@   before_call FilterNodes#1 [direct_dependencies_are_edges] !depsOptions.transitive ==> (forall j int :: {arg1[j]} 0 <= j && j < len(arg1) ==> edge(graph, arg1[j], target))
+//@   before_call FilterNodes#1 [dependencies_of_the_queried_target] has(graph.nodes, targetLabel) && target == nodeAt(graph, targetLabel) &&
+//@        (depsOptions.transitive ==> (forall a model.BuildNode :: {reach(graph, a, target)} reach(graph, a, target) ==> inNodes(arg1, a)) && (forall i int :: {arg1[i]} 0 <= i && i < len(arg1) ==> reach(graph, arg1[i], target)) && noDup(arg1)) &&
+//@        (!depsOptions.transitive ==> arg1 == graph.inEdges[labelOf(target)])
+//@   before_call PrintSortedLabels#1 [prints_the_filtered_list] arg1 == filteredDeps
+
+//@ func init$11(cmd, args) ()
+//@   before_call FilterNodes#1 [direct_dependants_are_edges] !rDepsOptions.transitive ==> (forall j int :: {arg1[j]} 0 <= j && j < len(arg1) ==> edge(graph, target, arg1[j]))
+//@   before_call FilterNodes#1 [dependants_of_the_queried_target] has(graph.nodes, targetLabel) && target == nodeAt(graph, targetLabel) &&
+//@        (rDepsOptions.transitive ==> (forall a model.BuildNode :: {reach(graph, target, a)} reach(graph, target, a) ==> inNodes(arg1, a)) && (forall i int :: {arg1[i]} 0 <= i && i < len(arg1) ==> reach(graph, target, arg1[i])) && noDup(arg1)) &&
+//@        (!rDepsOptions.transitive ==> arg1 == graph.outEdges[labelOf(target)])
+//@   before_call PrintSortedLabels#1 [prints_the_filtered_list] arg1 == filteredRDeps
